@@ -1,6 +1,7 @@
 """C14 -- solution files round-trip exactly and follow the solution schema.
 The real solution writer and reader (common/solution.py) are executed symbolically back to back on abstract XML
 documents; str(np.float64(x)) denotes exactly x, so state values must come back bit-identical (tolerance 0)."""
+import os
 import datetime
 import itertools
 
@@ -16,7 +17,7 @@ from pyvc.contract import B, Contract, R, T, conj, register
 from spec.approx import approx_parts
 from spec.sets import TWO_PI
 
-SOLUTION_XSD = "/repo/commonroad/scenario_definition/xml_definition_files/CommonRoadSolution_schema.xsd"
+SOLUTION_XSD = os.path.join(os.path.dirname(__import__("commonroad").__file__), "scenario_definition/xml_definition_files/CommonRoadSolution_schema.xsd")
 STATE_CLASS = {"PM": st.PMState, "ST": st.STState, "KS": st.KSState, "KST": st.KSTState, "MB": st.MBState, "Input": st.InputState, "PMInput": st.PMInputState}
 KINDS = [("PM", "PM"), ("ST", "ST"), ("KS", "KS"), ("KST", "KST"), ("MB", "MB"), ("KS", "Input"), ("ST", "Input"), ("MB", "Input"), ("PM", "PMInput")]
 
